@@ -19,7 +19,7 @@ func writeManifest(path string) error {
 	}
 	sort.Strings(ids)
 	var checks []map[string]interface{}
-	var na []map[string]string
+	na := []map[string]string{}
 	for _, id := range ids {
 		m := rules.Props[id]
 		if !m.Claimed {
